@@ -72,10 +72,32 @@ def run(ctx: Ctx, env):
     # NotEqual lookup renders <>
     ne = repo.classes.get("odata_query.django.django_q_ext.NotEqual")
     if ne is not None and "as_sql" in ne.methods:
-        src = ast.unparse(ne.methods["as_sql"])
-        ok = ("'%s <> %s'" in src or "'%s != %s'" in src) and "lhs, rhs" in src.replace("(lhs, rhs)", "lhs, rhs")
-        ctx.check(ok, "R1.notequal-lookup", "NotEqual.as_sql", "the custom `ne` lookup must render `lhs <> rhs` with (lhs, rhs) in order",
-                  ne.module.loc(ne.methods["as_sql"]), "a ne 1")
+        afn = ne.methods["as_sql"]
+        interp = env.interp()
+
+        def setup_ne(it):
+            return ne.module, afn, [ObjV(ne.qual, {}, "self"), Sym("compiler"), Sym("connection")], {}, ne.qual
+
+        for p in interp.explore(setup_ne):
+            t = T.norm(p.value) if p.outcome == "return" else None
+            ok = False
+            why = f"returns {T.show(t) if t else p.outcome}"
+            if t and t[0] == "tuple" and len(t) == 3 and t[1][0] == "str":
+                parts = t[1][1]
+                # "<lhs> <> <rhs>" with lhs/rhs being the first elements of process_lhs / process_rhs
+                def side(x):
+                    r = repr(x)
+                    return "lhs" if "process_lhs" in r else ("rhs" if "process_rhs" in r else "?")
+                dyn = [q for q in parts if q[0] == "dyn"]
+                lits = "".join(q[1] for q in parts if q[0] == "lit").strip()
+                text_ok = len(dyn) == 2 and side(dyn[0][1]) == "lhs" and side(dyn[1][1]) == "rhs" and lits in ("<>", "!=")
+                params = t[2]
+                order = [side(x) for x, _ in T.walk(params) if isinstance(x, tuple) and x and x[0] == "sym" and x[1] == "elem"]
+                params_ok = order[:2] == ["lhs", "rhs"] and len(order) == 2
+                ok = text_ok and params_ok
+                why = (f"SQL text `{T.show(t[1], 80)}` with parameters ordered {order}: the text must be `lhs <> rhs` and the parameters "
+                       "lhs-parameters followed by rhs-parameters (placeholders bind positionally)")
+            ctx.check(ok, "R1.notequal-lookup", "NotEqual.as_sql", f"the custom `ne` lookup: {why}", ne.module.loc(afn), "id add 1 ne 3")
     else:
         ctx.fail("R1.notequal-lookup", "NotEqual.as_sql", "custom NotEqual lookup not found")
     # operand order in the composite handlers
